@@ -180,6 +180,7 @@ PROPS = {
             {"name": "c08.histories", "pkg": STORAGE, "test": "TestVerifC08Histories", "shards_t": 16, "shards_q": 4},
             {"name": "c08.crash-points", "pkg": STORAGE, "test": "TestVerifC08CrashPoints", "shards_t": 16, "shards_q": 4},
             {"name": "c08.concurrent", "pkg": STORAGE, "test": "TestVerifC08Concurrent", "shards_t": 8},
+            {"name": "c08.concurrent-stress", "pkg": STORAGE, "test": "TestVerifC08Stress", "shards_t": 8, "shards_q": 2},
         ],
     },
     "C14": {
